@@ -121,6 +121,18 @@ TWO = [
     ("assign_other", lambda a, b, lib: a.assign(y=b.g), 0, 1, "known"), ("filter_other", lambda a, b, lib: a[b.g > 1], 0, 1, "known_same_index"),
     ("cmp_aligned", lambda a, b, lib: a.g > b.g, 0, 1, "known_same_index"),
 ]
+
+
+def _bcast_merge(how):
+    def f(a, b, lib):
+        if lib == "pd":
+            return a.merge(b[["k"]].drop_duplicates(), on="k") if how == "leftsemi" else a.merge(b, on="k", how=how)
+        return a.merge(b, on="k", how=how, broadcast=True, shuffle_method="tasks")
+    return f
+
+
+# the broadcast lowering of every join kind (needs both operands in > 1 partition: the cut vectors provide that)
+TWO += [(f"merge_bcast_{_how}", _bcast_merge(_how), 0, 0) for _how in ("inner", "left", "right", "outer", "leftsemi")]
 TWOD = {t[0]: t for t in TWO}
 
 
